@@ -753,9 +753,11 @@ func (p Parameters) BinarySize() int {
 	return 4 + len(b)
 }
 
-// maxModulus is the largest modulus supported by the ring arithmetic: the lazy NTT requires 6*q < 2^64.
-// Primes generated for a requested size of MaxModuliSize+1 bits are just below or above 2^(MaxModuliSize+1).
-const maxModulus = math.MaxUint64 / 6
+// maxModulus is the largest modulus supported by the ring arithmetic: the lazy NTT butterflies let values
+// grow up to 8*q, which must fit in 64 bits, i.e. q <= 2^(MaxModuliSize+1). Primes generated for a requested
+// size of MaxModuliSize+1 bits alternate just below and just above 2^(MaxModuliSize+1) (by a few multiples
+// of the NthRoot), hence the small tolerance above the power of two.
+const maxModulus = 1<<(MaxModuliSize+1) + 1<<(MaxModuliSize+1-20)
 
 // CheckModuli checks that the provided q and p correspond to a valid moduli chain.
 func CheckModuli(q, p []uint64) error {
